@@ -104,7 +104,7 @@ func newEngineFor(p *Program, j JobSpec, cross bool) *Engine {
 	budget := j.Budget
 	if budget == 0 {
 		// default wall-clock budgets per job: a run that exceeds them is INCOMPLETE (exit 2), never a pass
-		budget = 400
+		budget = 900
 		if os.Getenv("GOATSYM_TIER") == "thorough" {
 			budget = 2400
 		}
